@@ -1536,14 +1536,18 @@ func matchExactRegex(v string) ([]string, bool) {
 		return nil, false
 	}
 
+	// Only anchors that stand for the beginning and the end of the whole text
+	// make the expression match exact values. In multi-line mode, (?m), ^ and $
+	// are line anchors: "^foo$" then also matches "x\nfoo", which no equality
+	// test on the literal "foo" accepts.
 	start := re.Sub[0]
-	if !(start.Op == syntax.OpBeginLine || start.Op == syntax.OpBeginText) {
+	if start.Op != syntax.OpBeginText {
 		// Regex does not begin with ^
 		return nil, false
 	}
 
 	end := re.Sub[len(re.Sub)-1]
-	if !(end.Op == syntax.OpEndLine || end.Op == syntax.OpEndText) {
+	if end.Op != syntax.OpEndText {
 		// Regex does not end with $
 		return nil, false
 	}
